@@ -325,8 +325,11 @@ the map points into it (both also exercised by the `ledger` correspondence). -/
 theorem ledger_as_in_source :
     (∀ s t k tot c, PgBifrost.Gen.LedgerSrc.updateSeen s t k tot c = PgBifrost.Ledger.updateSeen s t k tot c) ∧
     (∀ s t k n, PgBifrost.Gen.LedgerSrc.updateWritten s t k n = some (PgBifrost.Ledger.updateWritten s t k n)) ∧
-    (∀ s k, PgBifrost.Gen.LedgerSrc.remove s k = some (PgBifrost.Ledger.remove s k)) :=
-  ⟨LedgerSrcProofs.updateSeen_eq, LedgerSrcProofs.updateWritten_eq, LedgerSrcProofs.remove_eq⟩
+    (∀ s k, PgBifrost.Gen.LedgerSrc.remove s k = some (PgBifrost.Ledger.remove s k)) ∧
+    -- … and `ProgressTracker.emitProgress` (Gen/EmitSrc.lean: scan while releasable, emit the LAST collected
+    -- commit position, remove every collected entry) is the model's `emit`
+    (∀ s, PgBifrost.Gen.EmitSrc.emitProgress s = PgBifrost.Ledger.emit s) :=
+  ⟨LedgerSrcProofs.updateSeen_eq, LedgerSrcProofs.updateWritten_eq, LedgerSrcProofs.remove_eq, LedgerSrcProofs.emit_eq⟩
 
 end wiring
 
